@@ -122,7 +122,7 @@ def run_job(job):
     # wave drag is compared on its own, and CD without it, so that a wave-drag discrepancy masks nothing else
     cmp("CD-CDw", H["CD"] - H["CDw"], F["CD"] - F["CDw"], 1e-6)
     cdw_h, cdw_f = float(H["CDw"].item()), float(F["CDw"].item())
-    if abs(cdw_h - cdw_f) > tol * max(abs(cdw_f), 1e-7):
+    if not (abs(cdw_h - cdw_f) <= tol * max(abs(cdw_f), 1e-7)):
         exact2 = abs(cdw_h - 2.0 * cdw_f) <= 1e-9 * abs(cdw_f)
         bad.append(("half:%s:%s:%s" % (job["side"], job["fem"], "CDw_exactly_doubled" if exact2 else "CDw"), {"half": cdw_h, "full": cdw_f}))
     else:
@@ -137,7 +137,7 @@ def run_job(job):
         for tag, ob, sym in (("half", H, True), ("full", F, False)):
             surf = {"name": "wing", "mesh": np.zeros((2, len(ob["fuel_vols"]) + 1, 3)), "symmetry": sym, "Wf_reserve": 1500.0, "fuel_density": 803.0}
             dl[tag] = float(run_comp(WingboxFuelVolDelta(surface=surf), {"fuelburn": float(np.ravel(F["fuelburn"])[0]), "fuel_vols": ob["fuel_vols"]}, ["fuel_vol_delta"])["fuel_vol_delta"].item())
-        if abs(dl["half"] - dl["full"]) > tol * max(abs(dl["full"]), 1e-6):
+        if not (abs(dl["half"] - dl["full"]) <= tol * max(abs(dl["full"]), 1e-6)):
             exact = abs(2.0 * dl["half"] - dl["full"]) <= 1e-9 * max(abs(dl["full"]), 1e-6)
             bad.append(("half:%s:%s:%s" % (job["side"], job["fem"], "fuel_vol_delta_exactly_halved" if exact else "fuel_vol_delta"), {"half": dl["half"], "full": dl["full"]}))
     cmp("CM", H["CM"], F["CM"], 1e-3)
